@@ -154,6 +154,9 @@ type normShape struct {
 	SortTyp    *types.Named
 	Dedupe     *ssa.Function
 	Err        string
+	// FuncDir: index+1 of the parameter (a function of two cursors) that carries the ordering: the sort type is a
+	// struct holding the slice and that function, and its Less applies the function to elements i and j
+	FuncDir int
 }
 
 var normShapeCache = map[*ssa.Function]*normShape{}
@@ -222,7 +225,34 @@ func (w *World) normShape(fn *ssa.Function, depth int) *normShape {
 			arg = rc.Call.Args[0]
 			reversed = true
 		}
-		if mi, ok := arg.(*ssa.MakeInterface); ok {
+		if mi, ok := arg.(*ssa.MakeInterface); ok && structSortLiteral(mi.X) != nil {
+			al := structSortLiteral(mi.X)
+			st := mi.X.Type().(*types.Named)
+			sliceField, funcField, swapped, okL := w.lessDelegates(st)
+			if !okL {
+				return nil
+			}
+			ks, kf := -1, -1
+			for _, stv := range storesInto(al) {
+				fa, isFA := stv.Addr.(*ssa.FieldAddr)
+				if !isFA || fa.X != ssa.Value(al) {
+					continue
+				}
+				if fa.Field == sliceField {
+					ks = paramIdx(stv.Val)
+				}
+				if fa.Field == funcField {
+					kf = paramIdx(stv.Val)
+				}
+			}
+			if ks < 0 || kf < 0 || reversed {
+				return nil
+			}
+			sh.SliceParam, sh.SortTyp, sh.FuncDir = ks, st, kf+1
+			if swapped {
+				sh.FuncDir = -(kf + 1)
+			}
+		} else if mi, ok := arg.(*ssa.MakeInterface); ok {
 			st, isNamed := mi.X.Type().(*types.Named)
 			k := paramIdx(mi.X)
 			if !isNamed || k < 0 {
@@ -245,6 +275,10 @@ func (w *World) normShape(fn *ssa.Function, depth int) *normShape {
 			sh.DirParam = k
 		} else {
 			return nil
+		}
+		// a struct sort type holding the slice and a comparison function that arrives as a parameter
+		if mi, ok := arg.(*ssa.MakeInterface); ok && sh.SortTyp == nil && sh.DirParam < 0 {
+			_ = mi
 		}
 		for _, ret := range rets {
 			k, d := chain(ret.Results[0])
@@ -289,6 +323,28 @@ func (w *World) normShape(fn *ssa.Function, depth int) *normShape {
 				return nil
 			}
 			cur := &normShape{DirParam: -1, Dir: gs.Dir, SliceParam: k, SortTyp: gs.SortTyp, Dedupe: gs.Dedupe}
+			if gs.FuncDir != 0 {
+				fi := gs.FuncDir
+				if fi < 0 {
+					fi = -fi
+				}
+				fi--
+				if fi >= len(c.Call.Args) {
+					return nil
+				}
+				cmp, isFn := stripConv(c.Call.Args[fi]).(*ssa.Function)
+				if !isFn {
+					return nil
+				}
+				dir := posComparison(cmp)
+				if dir == 0 {
+					return nil
+				}
+				if gs.FuncDir < 0 {
+					dir = -dir
+				}
+				cur.Dir = dir
+			}
 			if gs.DirParam >= 0 {
 				if gs.DirParam >= len(c.Call.Args) {
 					return nil
@@ -905,4 +961,144 @@ func isFieldOf(v, rec ssa.Value) bool {
 		}
 	}
 	return false
+}
+
+// structSortLiteral: v is the value of a struct literal built in place (a load of a local); returns the local.
+func structSortLiteral(v ssa.Value) *ssa.Alloc {
+	ld, ok := v.(*ssa.UnOp)
+	if !ok || ld.Op != token.MUL {
+		return nil
+	}
+	al, ok := ld.X.(*ssa.Alloc)
+	if !ok {
+		return nil
+	}
+	if _, isStruct := al.Type().(*types.Pointer).Elem().Underlying().(*types.Struct); !isStruct {
+		return nil
+	}
+	if _, isNamed := al.Type().(*types.Pointer).Elem().(*types.Named); !isNamed {
+		return nil
+	}
+	return al
+}
+
+// lessDelegates: the Less method of struct type t returns f(s[i], s[j]) where s and f are fields of the receiver:
+// the indices of those fields, and whether the elements are passed in the order (j, i).
+func (w *World) lessDelegates(t *types.Named) (sliceField, funcField int, swapped, ok bool) {
+	var less *ssa.Function
+	ms := w.Prog.MethodSets.MethodSet(t)
+	for i := 0; i < ms.Len(); i++ {
+		if ms.At(i).Obj().Name() == "Less" {
+			less = w.Prog.MethodValue(ms.At(i))
+		}
+	}
+	if less == nil || len(less.Params) != 3 {
+		return 0, 0, false, false
+	}
+	fieldOf := func(v ssa.Value) int {
+		switch x := v.(type) {
+		case *ssa.Field:
+			if x.X == ssa.Value(less.Params[0]) {
+				return x.Field
+			}
+		case *ssa.UnOp:
+			if fa, isFA := x.X.(*ssa.FieldAddr); isFA && x.Op == token.MUL {
+				if al, isAl := fa.X.(*ssa.Alloc); isAl {
+					// the receiver spilled into a local
+					for _, st := range storesInto(al) {
+						if st.Addr == ssa.Value(al) && st.Val == ssa.Value(less.Params[0]) {
+							return fa.Field
+						}
+					}
+				}
+				if fa.X == ssa.Value(less.Params[0]) {
+					return fa.Field
+				}
+			}
+		}
+		return -1
+	}
+	found := false
+	allInstrs(less, func(in ssa.Instruction) {
+		ret, isRet := in.(*ssa.Return)
+		if !isRet || len(ret.Results) != 1 {
+			return
+		}
+		c, isCall := ret.Results[0].(*ssa.Call)
+		if !isCall || c.Call.IsInvoke() || c.Call.StaticCallee() != nil || len(c.Call.Args) != 2 {
+			return
+		}
+		ff := fieldOf(c.Call.Value)
+		if ff < 0 {
+			return
+		}
+		elem := func(v ssa.Value) (int, int) { // (slice field, which index parameter)
+			ld, isLd := v.(*ssa.UnOp)
+			if !isLd {
+				return -1, 0
+			}
+			ia, isIA := ld.X.(*ssa.IndexAddr)
+			if !isIA {
+				return -1, 0
+			}
+			sfield := fieldOf(ia.X)
+			switch ia.Index {
+			case ssa.Value(less.Params[1]):
+				return sfield, 1
+			case ssa.Value(less.Params[2]):
+				return sfield, 2
+			}
+			return -1, 0
+		}
+		s1, i1 := elem(c.Call.Args[0])
+		s2, i2 := elem(c.Call.Args[1])
+		if s1 < 0 || s1 != s2 || i1 == 0 || i2 == 0 || i1 == i2 {
+			return
+		}
+		sliceField, funcField, swapped, found = s1, ff, i1 == 2, true
+	})
+	return sliceField, funcField, swapped, found
+}
+
+// posComparison: cmp(a, b) returns a.Pos() < b.Pos() (+1) or a.Pos() > b.Pos() (-1), strictly; 0 otherwise.
+func posComparison(cmp *ssa.Function) int {
+	if len(cmp.Params) != 2 || len(cmp.Blocks) != 1 {
+		return 0
+	}
+	ret, ok := cmp.Blocks[0].Instrs[len(cmp.Blocks[0].Instrs)-1].(*ssa.Return)
+	if !ok || len(ret.Results) != 1 {
+		return 0
+	}
+	bo, ok := ret.Results[0].(*ssa.BinOp)
+	if !ok {
+		return 0
+	}
+	which := func(v ssa.Value) int {
+		recv, ok := isMethodCall(v, "Pos")
+		if !ok {
+			return 0
+		}
+		switch recv {
+		case ssa.Value(cmp.Params[0]):
+			return 1
+		case ssa.Value(cmp.Params[1]):
+			return 2
+		}
+		return 0
+	}
+	a, b := which(bo.X), which(bo.Y)
+	if a == 0 || b == 0 || a == b {
+		return 0
+	}
+	dir := 0
+	switch bo.Op {
+	case token.LSS:
+		dir = 1
+	case token.GTR:
+		dir = -1
+	}
+	if a == 2 {
+		dir = -dir
+	}
+	return dir
 }
